@@ -407,6 +407,14 @@ def bspline_mod_regime(weighted, L, p):
     return "regular"
 
 
+def family_tol(fam, p, weighted, maxlevel):
+    """1e-9, except where the n x n hierarchisation solve is ill conditioned: B-splines of order >= 5 on non-dyadic trees deeper than
+    level 6 (neighbouring cells differing by factors up to 4^7); measured rounding there reaches 6e-8, elsewhere <= 2e-12"""
+    if fam == "bspline" and p >= 5 and weighted and maxlevel >= 7:
+        return 1e-6
+    return TOL_HIER
+
+
 def run_family(ctx, case, grid=None, report=None):
     """families without exact model: oracle only"""
     import numpy as np
@@ -480,6 +488,7 @@ def run_family(ctx, case, grid=None, report=None):
                 ok = False
                 viol("family-nonneg", tags, {"weights": [float(x) for x in g.weights[0]]})
         levelvec = [max(l) for l in lv]
+        tolh = family_tol(fam, p, weighted, max(levelvec))
         worst = None
         for k in range(maxdeg + 1):
             monos = [[k]] if dim == 1 else ([[k, 0], [k, 1]] if k <= 1 else [])
@@ -494,9 +503,9 @@ def run_family(ctx, case, grid=None, report=None):
                 sc = vol * max(1.0, *[abs(x) for x in af + bf]) ** sum(ks)
                 rel = abs(iv - float(ex)) / max(1.0, abs(float(ex)), sc)
                 key = "max_rel_err_%s%s" % (fam, "_weighted" if weighted else "")
-                if rel <= TOL_HIER and rel > ctx.extra.get(key, 0.0):
+                if rel <= tolh and rel > ctx.extra.get(key, 0.0):
                     ctx.extra[key] = rel
-                if not close(iv, ex, TOL_HIER, sc):
+                if not close(iv, ex, tolh, sc):
                     worst = (ks, iv, float(ex))
                     deg = sum(ks)
                     if deg <= 1:
@@ -528,7 +537,7 @@ def run_family(ctx, case, grid=None, report=None):
             i1 = scalar(g.integrate(Table([tabv]), levelvec, af, bf))
             i2 = scalar(g2.integrate(Table([tabv]), levelvec, af, bf))
             vol = float(b[0] - a[0])
-            if w1 != w2 or not close(i1, i2, TOL_HIER, 4.0 * vol):
+            if w1 != w2 or not close(i1, i2, tolh, 4.0 * vol):
                 ok = False
                 viol("family-reused-vs-fresh", tags, {"weights_reused": w1[:12], "weights_fresh": w2[:12], "integrate_reused": i1, "integrate_fresh": i2})
     except Exception as e:
@@ -904,7 +913,7 @@ def run(ctx):
     n_fam = 700 if not thorough else 12000
     n_2d = 100 if not thorough else 1500
     n_hist = 400 if not thorough else 5000
-    budget = 95 if not thorough else 600
+    budget = 95 if not thorough else 540
     for case in deep_graded_cases():
         run_case(ctx, drv, case)
         ctx.count("deep_graded_m%d" % case["deep"])
